@@ -14,6 +14,11 @@ mod w_c12;
 mod w_c18;
 mod w_c19;
 mod w_c20;
+mod vecprog;
+mod w_vec;
+mod w_c16;
+mod w_box;
+mod w_str;
 mod w_misc;
 
 use json::J;
@@ -123,6 +128,22 @@ fn main() {
         }
         "c20race" => {
             w_c20::run_race(&args, &mut rep);
+            true
+        }
+        "vecdiff" => {
+            w_vec::run(&args, &mut rep);
+            true
+        }
+        "c16" => {
+            w_c16::run(&args, &mut rep);
+            true
+        }
+        "boxdiff" => {
+            w_box::run(&args, &mut rep);
+            true
+        }
+        "strdiff" => {
+            w_str::run(&args, &mut rep);
             true
         }
         "ctor_table" => {
